@@ -47,93 +47,152 @@ theorem lookupNew_none {plan : Plan} {k : Key} (h : lookupNew plan k = none) :
       simp only [List.map_cons, List.mem_cons, not_or]
       exact ⟨fun h' => he h'.symm, ih h⟩
 
-/-- where a new parent can come from -/
-def Src (g : PMap) (onto : Key) (plan : Plan) (olds : List Key) (x : Key) : Prop :=
-  x = onto ∨ (∃ e ∈ plan, e.new = x) ∨
-    (x ∈ olds ∧ mergedInto g x onto = false ∧ x ∉ plan.map (·.old))
+theorem lookupSkipped_some {sk : Skipped} {k v : Key} (h : lookupSkipped sk k = some v) :
+    ∃ kv ∈ sk, kv.1 = k ∧ kv.2 = v := by
+  induction sk with
+  | nil => simp [lookupSkipped] at h
+  | cons e rest ih =>
+    simp only [lookupSkipped] at h
+    split at h
+    · rename_i he
+      exact ⟨e, by simp, he, by simpa using h⟩
+    · obtain ⟨e', he', h1, h2⟩ := ih h
+      exact ⟨e', List.mem_cons_of_mem _ he', h1, h2⟩
 
-theorem leftParents_src (g : PMap) (onto : Key) (plan : Plan) (p0 : Key) (olds : List Key)
+theorem lookupSkipped_none {sk : Skipped} {k : Key} (h : lookupSkipped sk k = none) :
+    k ∉ sk.map (·.1) := by
+  induction sk with
+  | nil => simp
+  | cons e rest ih =>
+    simp only [lookupSkipped] at h
+    split at h
+    · cases h
+    · rename_i he
+      simp only [List.map_cons, List.mem_cons, not_or]
+      exact ⟨fun h' => he h'.symm, ih h⟩
+
+/-- a stand-in is the new id of an entry or an alias recorded for a skipped merge -/
+theorem standIn_some {plan : Plan} {sk : Skipped} {k n : Key} (h : standIn plan sk k = some n) :
+    (∃ e ∈ plan, e.new = n) ∨ (∃ kv ∈ sk, kv.2 = n) := by
+  unfold standIn at h
+  split at h
+  · rename_i m hm
+    obtain ⟨e, he, _, h2⟩ := lookupNew_some hm
+    cases h
+    exact Or.inl ⟨e, he, h2⟩
+  · obtain ⟨kv, hkv, _, h2⟩ := lookupSkipped_some h
+    exact Or.inr ⟨kv, hkv, h2⟩
+
+theorem standIn_none {plan : Plan} {sk : Skipped} {k : Key} (h : standIn plan sk k = none) :
+    k ∉ plan.map (·.old) ∧ k ∉ sk.map (·.1) := by
+  unfold standIn at h
+  split at h
+  · cases h
+  · rename_i hn
+    exact ⟨lookupNew_none hn, lookupSkipped_none h⟩
+
+/-- where a new parent can come from: the new base, the new id of an entry, the
+alias of a skipped merge, or an old parent that is neither merged into `onto`
+nor rewritten nor skipped -/
+def Src (g : PMap) (onto : Key) (plan : Plan) (sk : Skipped) (olds : List Key) (x : Key) : Prop :=
+  x = onto ∨ (∃ e ∈ plan, e.new = x) ∨ (∃ kv ∈ sk, kv.2 = x) ∨
+    (x ∈ olds ∧ mergedInto g x onto = false ∧ x ∉ plan.map (·.old) ∧ x ∉ sk.map (·.1))
+
+/-- the first new parent is never a kept old parent -/
+def Src1 (onto : Key) (plan : Plan) (sk : Skipped) (x : Key) : Prop :=
+  x = onto ∨ (∃ e ∈ plan, e.new = x) ∨ (∃ kv ∈ sk, kv.2 = x)
+
+theorem src_of_src1 {g : PMap} {onto : Key} {plan : Plan} {sk : Skipped} {olds : List Key} {x : Key}
+    (h : Src1 onto plan sk x) : Src g onto plan sk olds x := by
+  rcases h with h | h | h
+  · exact Or.inl h
+  · exact Or.inr (Or.inl h)
+  · exact Or.inr (Or.inr (Or.inl h))
+
+theorem src1_of_standIn {onto : Key} {plan : Plan} {sk : Skipped} {k n : Key}
+    (h : standIn plan sk k = some n) : Src1 onto plan sk n := by
+  rcases standIn_some h with h | h
+  · exact Or.inr (Or.inl h)
+  · exact Or.inr (Or.inr h)
+
+theorem leftParents_src (g : PMap) (onto : Key) (plan : Plan) (sk : Skipped) (p0 : Key) (olds : List Key)
     (h0 : p0 ∈ olds) :
-    ∀ x ∈ (leftParents g onto plan p0).1 :: (leftParents g onto plan p0).2, Src g onto plan olds x := by
+    Src1 onto plan sk (leftParents g onto plan sk p0).1 ∧
+    ∀ x ∈ (leftParents g onto plan sk p0).2, Src g onto plan sk olds x := by
   unfold leftParents
   split
-  · intro x hx; simp at hx; exact Or.inl hx
+  · exact ⟨Or.inl rfl, fun x hx => by cases hx⟩
   · rename_i hm
     split
     · rename_i n hn
-      intro x hx
-      simp at hx
-      obtain ⟨e, he, _, h2⟩ := lookupNew_some hn
-      exact Or.inr (Or.inl ⟨e, he, hx ▸ h2⟩)
+      exact ⟨src1_of_standIn hn, fun x hx => by cases hx⟩
     · rename_i hn
-      intro x hx
-      simp at hx
-      rcases hx with hx | hx
-      · exact Or.inl hx
-      · subst hx
-        exact Or.inr (Or.inr ⟨h0, by simpa using hm, lookupNew_none hn⟩)
+      refine ⟨Or.inl rfl, fun x hx => ?_⟩
+      simp only [List.mem_singleton] at hx
+      subst hx
+      exact Or.inr (Or.inr (Or.inr ⟨h0, by simpa using hm, standIn_none hn⟩))
 
-theorem addParent_src (g : PMap) (onto : Key) (plan : Plan) (addl olds : List Key)
+theorem addParent_src (g : PMap) (onto : Key) (plan : Plan) (sk : Skipped) (addl olds : List Key)
     (ps : Key × List Key) (op : Key) (hop : op ∈ olds)
-    (hps : ∀ x ∈ ps.1 :: ps.2, Src g onto plan olds x) :
-    ∀ x ∈ (addParent g onto plan addl ps op).1 :: (addParent g onto plan addl ps op).2,
-      Src g onto plan olds x := by
+    (h1 : Src1 onto plan sk ps.1) (h2 : ∀ x ∈ ps.2, Src g onto plan sk olds x) :
+    Src1 onto plan sk (addParent g onto plan sk addl ps op).1 ∧
+    ∀ x ∈ (addParent g onto plan sk addl ps op).2, Src g onto plan sk olds x := by
   unfold addParent
   split
   · split
-    · exact hps
+    · exact ⟨h1, h2⟩
     · rename_i hm
       split
       · rename_i n hn
-        obtain ⟨e, he, _, h2⟩ := lookupNew_some hn
         split
-        · intro x hx
-          rcases List.mem_cons.mp hx with hx | hx
-          · exact Or.inr (Or.inl ⟨e, he, hx ▸ h2⟩)
-          · exact hps x (List.mem_cons_of_mem _ hx)
-        · intro x hx
-          simp only [List.mem_cons, List.mem_append, List.not_mem_nil, or_false] at hx
-          rcases hx with hx | hx | hx
-          · exact hps x (by simp [hx])
-          · exact hps x (by simp [hx])
-          · exact Or.inr (Or.inl ⟨e, he, hx ▸ h2⟩)
+        · exact ⟨h1, h2⟩
+        · split
+          · exact ⟨src1_of_standIn hn, h2⟩
+          · refine ⟨h1, fun x hx => ?_⟩
+            rcases List.mem_append.mp hx with hx | hx
+            · exact h2 x hx
+            · simp only [List.mem_singleton] at hx
+              subst hx
+              exact src_of_src1 (src1_of_standIn hn)
       · rename_i hn
-        intro x hx
-        simp only [List.mem_cons, List.mem_append, List.not_mem_nil, or_false] at hx
-        rcases hx with hx | hx | hx
-        · exact hps x (by simp [hx])
-        · exact hps x (by simp [hx])
-        · subst hx
-          exact Or.inr (Or.inr ⟨hop, by simpa using hm, lookupNew_none hn⟩)
-  · exact hps
+        refine ⟨h1, fun x hx => ?_⟩
+        rcases List.mem_append.mp hx with hx | hx
+        · exact h2 x hx
+        · simp only [List.mem_singleton] at hx
+          subst hx
+          exact Or.inr (Or.inr (Or.inr ⟨hop, by simpa using hm, standIn_none hn⟩))
+  · exact ⟨h1, h2⟩
 
-theorem foldl_addParent_src (g : PMap) (onto : Key) (plan : Plan) (addl olds : List Key) :
+theorem foldl_addParent_src (g : PMap) (onto : Key) (plan : Plan) (sk : Skipped) (addl olds : List Key) :
     ∀ (rest : List Key) (ps : Key × List Key), (∀ op ∈ rest, op ∈ olds) →
-      (∀ x ∈ ps.1 :: ps.2, Src g onto plan olds x) →
-      ∀ x ∈ (rest.foldl (addParent g onto plan addl) ps).1 ::
-        (rest.foldl (addParent g onto plan addl) ps).2, Src g onto plan olds x := by
+      Src1 onto plan sk ps.1 → (∀ x ∈ ps.2, Src g onto plan sk olds x) →
+      Src1 onto plan sk (rest.foldl (addParent g onto plan sk addl) ps).1 ∧
+      ∀ x ∈ (rest.foldl (addParent g onto plan sk addl) ps).2, Src g onto plan sk olds x := by
   intro rest
   induction rest with
-  | nil => intro ps _ h; exact h
+  | nil => intro ps _ h1 h2; exact ⟨h1, h2⟩
   | cons op rest ih =>
-    intro ps hin h
+    intro ps hin h1 h2
     simp only [List.foldl_cons]
-    apply ih _ (fun o ho => hin o (List.mem_cons_of_mem _ ho))
-    exact addParent_src g onto plan addl olds ps op (hin op (by simp)) h
+    have := addParent_src g onto plan sk addl olds ps op (hin op (by simp)) h1 h2
+    exact ih _ (fun o ho => hin o (List.mem_cons_of_mem _ ho)) this.1 this.2
 
-theorem newParents_src (g : PMap) (onto : Key) (plan : Plan) (p0 : Key) (rest : List Key) :
-    ∀ x ∈ (newParents g onto plan p0 rest).1 :: (newParents g onto plan p0 rest).2,
-      Src g onto plan (p0 :: rest) x := by
+theorem newParents_src (g : PMap) (onto : Key) (plan : Plan) (sk : Skipped) (p0 : Key) (rest : List Key) :
+    Src1 onto plan sk (newParents g onto plan sk p0 rest).1 ∧
+    ∀ x ∈ (newParents g onto plan sk p0 rest).2, Src g onto plan sk (p0 :: rest) x := by
   unfold newParents
-  apply foldl_addParent_src g onto plan _ (p0 :: rest) rest _ (fun o ho => List.mem_cons_of_mem _ ho)
-  exact leftParents_src g onto plan p0 (p0 :: rest) (by simp)
+  have := leftParents_src g onto plan sk p0 (p0 :: rest) (by simp)
+  exact foldl_addParent_src g onto plan sk _ (p0 :: rest) rest _
+    (fun o ho => List.mem_cons_of_mem _ ho) this.1 this.2
 
-/-- result of one loop step in general: unchanged (a skipped merge) or one entry appended -/
-theorem planStep_cases {g : PMap} {gen : Key → Key} {onto : Key} {skip : Bool} {plan plan' : Plan}
-    {old : Key} (h : planStep g gen onto skip plan old = .ok plan') :
+/-- result of one loop step: a skipped merge recorded with its stand-in, or one entry appended -/
+theorem planStep_cases {g : PMap} {gen : Key → Key} {onto : Key} {skip : Bool} {st st' : Plan × Skipped}
+    {old : Key} (h : planStep g gen onto skip st old = .ok st') :
     ∃ p0 rest, parentsOf g old = some (p0 :: rest) ∧
-      ((plan' = plan ∧ rest ≠ [] ∧ skip = true) ∨
-       plan' = plan ++ [⟨old, gen old, (newParents g onto plan p0 rest).1 :: (newParents g onto plan p0 rest).2⟩]) := by
+      ((st' = (st.1, st.2 ++ [(old, (newParents g onto st.1 st.2 p0 rest).1)]) ∧ rest ≠ [] ∧ skip = true ∧
+          (newParents g onto st.1 st.2 p0 rest).2 = []) ∨
+       (st' = (st.1 ++ [⟨old, gen old, (newParents g onto st.1 st.2 p0 rest).1 ::
+          (newParents g onto st.1 st.2 p0 rest).2⟩], st.2) ∧ gen old ≠ old)) := by
   unfold planStep at h
   cases hp : parentsOf g old with
   | none => simp [hp] at h
@@ -143,27 +202,28 @@ theorem planStep_cases {g : PMap} {gen : Key → Key} {onto : Key} {skip : Bool}
     | cons p0 rest =>
       refine ⟨p0, rest, rfl, ?_⟩
       simp only [hp] at h
-      by_cases hc : (!rest.isEmpty && (newParents g onto plan p0 rest).2.isEmpty && skip) = true
+      by_cases hc : (!rest.isEmpty && (newParents g onto st.1 st.2 p0 rest).2.isEmpty && skip) = true
       · simp only [hc, if_true] at h
         cases h
         left
-        simp only [Bool.and_eq_true, Bool.not_eq_true', List.isEmpty_eq_false_iff] at hc
-        exact ⟨rfl, hc.1.1, hc.2⟩
+        simp only [Bool.and_eq_true, Bool.not_eq_true', List.isEmpty_eq_false_iff, List.isEmpty_iff] at hc
+        exact ⟨rfl, hc.1.1, hc.2, hc.1.2⟩
       · simp only [hc] at h
         by_cases hg : gen old = old
         · simp [hg] at h
         · simp only [hg, if_false] at h
           cases h
-          exact Or.inr rfl
+          exact Or.inr ⟨rfl, hg⟩
 
 /-- result of one loop step without skipping -/
-theorem planStep_noskip {g : PMap} {gen : Key → Key} {onto : Key} {plan plan' : Plan} {old : Key}
-    (h : planStep g gen onto false plan old = .ok plan') :
-    ∃ p0 rest, parentsOf g old = some (p0 :: rest) ∧
-      plan' = plan ++ [⟨old, gen old, (newParents g onto plan p0 rest).1 :: (newParents g onto plan p0 rest).2⟩] := by
+theorem planStep_noskip {g : PMap} {gen : Key → Key} {onto : Key} {st st' : Plan × Skipped} {old : Key}
+    (h : planStep g gen onto false st old = .ok st') :
+    ∃ p0 rest, parentsOf g old = some (p0 :: rest) ∧ gen old ≠ old ∧
+      st' = (st.1 ++ [⟨old, gen old, (newParents g onto st.1 st.2 p0 rest).1 ::
+        (newParents g onto st.1 st.2 p0 rest).2⟩], st.2) := by
   obtain ⟨p0, rest, hps, h1 | h1⟩ := planStep_cases h
-  · exact absurd h1.2.2 (by simp)
-  · exact ⟨p0, rest, hps, h1⟩
+  · exact absurd h1.2.2.1 (by simp)
+  · exact ⟨p0, rest, hps, h1.2, h1.1⟩
 
 /-! ### plan file -/
 
